@@ -527,7 +527,7 @@ fn generate(thorough: bool, max_depth: usize, emit: &mut dyn FnMut(Case)) {
     let small = kinds_alphabet(false);
     vkit::enumerate::seqs(&alpha, 0, max_depth, |kinds| {
         // quick: the small alphabet to depth 2; thorough: the full alphabet to depth 2 and the small one to depth 3
-        let deep = [Plain, Repo, Bare, GitFile, Linked, Decoy];
+        let deep = [Plain, Repo, Bare, GitFile, Linked];
         let _ = &small;
         if kinds.len() > 2 && !(thorough && kinds.iter().all(|k| deep.contains(k))) {
             return;
